@@ -34,7 +34,7 @@ PROBES = ["closure_writer", "closure_export", "closure_compress", "closure_repac
           "closure_join", "copy_same_valid", "corrupt_single", "corrupt_pair", "corrupt_copy_compared",
           "k_feat_len", "k_contour_len", "k_roi", "k_unknown_feat", "k_missing_key", "k_index", "k_channel_count",
           "k_laser_count", "k_samples", "k_extlink", "k_nonpositive", "fluorescence_product", "trace_without_flmax",
-          "stored_index"]
+          "stored_index", "fl3_only_product", "index_rewritten_in_replace_mode"]
 COMPONENTS = {
     "real": ["dclab.rtdc_dataset.check (IntegrityChecker, check_dataset)", "dclab RTDCWriter, export.hdf5, cli compress/repack/"
              "condense/split/join", "RTDC_HDF5 reader", "h5py/HDF5 + hdf5plugin on tmpfs"],
@@ -112,6 +112,8 @@ class World:
             return {"k": "write", "dseed": r.randrange(1 << 30), "n": r.choice([3, 5, 9, 14, 23, 40]), "fl": fl,
                     "trace": (fl and r.random() < 0.6) or (not fl and r.random() < 0.12), "image": r.random() < 0.6,
                     "mask": r.random() < 0.5, "contour": r.random() < 0.3, "index": r.random() < 0.3,
+                    "flset": r.choice([[1, 2], [1, 2], [1], [2], [3], [3], [1, 3], [1, 2, 3]]),
+                    "rewrite_index": r.random() < 0.25,
                     "cmp": r.choice(["zstd", "zstd1", "gzip", "none"])}
         src = r.randrange(1 << 16)
         if x < 0.22:
@@ -213,10 +215,28 @@ class World:
                           nan_mode=pr.choice(["none", "none", "some"]), meta_extra=extra, long_logs=False)
         if "index" in m.feats:
             m.feats["index"] = np.arange(1, n + 1)
+        if op["fl"]:
+            # which fluorescence channels the measurement has (with matching channel names and count)
+            flset = op.get("flset") or [1, 2]
+            vals = [m.feats.pop(f) for f in ("fl1_max", "fl2_max") if f in m.feats]
+            for ch in (1, 2, 3):
+                m.meta["fluorescence"].pop(f"channel {ch} name", None)
+            for j, ch in enumerate(flset):
+                m.feats[f"fl{ch}_max"] = vals[j % len(vals)].copy()
+                m.meta["fluorescence"][f"channel {ch} name"] = ["525/50", "593/46", "700/75"][ch - 1]
+            m.meta["fluorescence"]["channel count"] = len(flset)
+            if flset == [3]:
+                ctx.probe("fl3_only_product")
         name = self.newname("w")
         try:
             with quiet():
                 gen.write_model(m, self.dir / name, compression=op["cmp"])
+                if op.get("rewrite_index") and "index" in m.feats:
+                    # a second writer session in replace mode stores the index again (still dclab's own writer)
+                    from dclab.rtdc_dataset.writer import RTDCWriter
+                    with RTDCWriter(self.dir / name, mode="replace") as hw:
+                        hw.store_feature("index", np.arange(1, n + 1))
+                    ctx.probe("index_rewritten_in_replace_mode")
         except Exception as e:
             return self.skipped("writer", e)
         ctx.state_ops += 1
@@ -320,6 +340,13 @@ class World:
         same = [f for f in self.files if f["name"] != a["name"] and f["facts"]["feats"] == a["facts"]["feats"]]
         others = [f for f in self.files if f["name"] != a["name"]]
         b = same[op["srcs"][1] % len(same)] if same else others[op["srcs"][1] % len(others)]
+        # Joining measurements with different fluorescence channel sets is not joining parts of one measurement run
+        # (the tool keeps the first input's channel metadata but only the common features): not a closure case.
+        fla = sorted(f for f in a["facts"]["feats"] if f.startswith("fl") and f.endswith("_max"))
+        flb = sorted(f for f in b["facts"]["feats"] if f.startswith("fl") and f.endswith("_max"))
+        if fla != flb:
+            ctx.count("join_skipped_different_fl_channels")
+            return
         name = self.newname("j")
         try:
             with quiet():
